@@ -1489,8 +1489,12 @@ impl<T: Transport, Env: UtpEnvironment> VirtualSocket<T, Env> {
 
     fn transition_to_fin_wait_1(&mut self) {
         log_if_changed!(Level::DEBUG, "state", self, |s| s.state, |s| {
-            if s.state.transition_to_fin_wait_1(s.seq_nr) {
-                s.seq_nr += 1;
+            // The FIN follows the last queued segment (everything queued was sent at this point).
+            // self.seq_nr is not that number while segments are being re-sent after an RTO: each
+            // re-send sets it back to "one past the segment just sent".
+            let our_fin = s.user_tx_segments.next_seq_nr();
+            if s.state.transition_to_fin_wait_1(our_fin) {
+                s.seq_nr = our_fin + 1;
             }
         });
     }
